@@ -96,11 +96,20 @@ WANT = set()
 SEED = 0
 
 
+#: longer constructs the enumerated sequences do not reach (implicit numerals after groups in fields, comparison operators first with
+#: leading blanks, mixed leading blanks, signed range bounds followed by blanks, words that look like operators)
+CURATED = ["title:(foo bar)^", "title:foo^ bar", "title:(foo bar)^^2", "t:(a b)~", "f:\"p q\"~ x", "(a b)^ c~", " <5", "\t>10 AND foo", "  <5^2 OR bar", " <= \"a b\" c",
+           "\n a", " \n a", "\t\n+ a", "\r\n\r\nf:[1 TO 2]", "[-1 TO 5]", "[ 1 TO -2 ]", "[ -1  TO  -2 ] x", "f:[-\"a b\" TO *] ", "a && b", "a || b", "f:(a && b)^2",
+           "a &&\tb\n||  c^2 ", "x:(y:(z:(w OR v) AND u)^2 AND t)~ ", "NOT  -  + a ", " ( ( a ) ) ", "a^ ^2", "TO TO TO", "[TO TO TO]", "a:TO"]
+
+
 def work(item):
     i, seq = item
     rnd = random.Random(SEED * 1000003 + i)
     fails = []
     n = 0
+    if isinstance(seq, str):
+        return 1, check_query(seq, WANT)
     for q in layouts(seq, rnd):
         n += 1
         fails.extend(check_query(q, WANT))
@@ -113,12 +122,12 @@ def main():
     WANT = set(p["want"])
     SEED = p.get("seed", 0)
     seqs = gen.sequences(p["max_tokens"])
-    res = pmap(work, list(enumerate(seqs)))
+    res = pmap(work, list(enumerate(seqs)) + [(-1 - k, q) for k, q in enumerate(CURATED)])
     failures = [f for r in res for f in r[1]]
     rest, hit = classify(failures, p.get("known", []))
     emit({"ok": not rest, "evaluations": sum(r[0] for r in res), "distinct_nontrivial": len([s for s in seqs if len(s) > 1]),
           "rule": "every accepted token-type sequence of <= %d tokens x 4 whitespace layouts (none / single blanks with leading and "
-                  "trailing blank / two seeded mixes of Unicode blanks incl. newlines); non-trivial = more than one token" % p["max_tokens"],
+                  "trailing blank / two seeded mixes of Unicode blanks incl. newlines) + %d curated longer queries; non-trivial = more than one token" % (p["max_tokens"], len(CURATED)),
           "bound": "token sequences of length <= %d, 4 layouts each" % p["max_tokens"],
           "samples": [{"query": layouts(seqs[len(seqs) // 3], random.Random(1))[2]}],
           "failures": rest[:40], "known": hit})
